@@ -101,7 +101,8 @@ def run_scenario(sc: dict[str, Any]) -> dict[str, Any]:
         flt = {'labels': {'on': 'yes'}} if use_label else {}
         for hid, c in sc['handlers'].items():
             if c['kind'] == 'daemon':
-                kopf.daemon(GROUP, VERSION, PLURAL, registry=reg, id=hid, cancellation_backoff=c['backoff'] or None,
+                # (`bzero`: an explicit zero for the backoff -- the stage of the signal lasts no time at all -- instead of none)
+                kopf.daemon(GROUP, VERSION, PLURAL, registry=reg, id=hid, cancellation_backoff=c['backoff'] or (0 if c.get('bzero') else None),
                             cancellation_timeout=c['timeout'] or None, cancellation_polling=c.get('polling', 3), **flt)(mk_daemon(hid, c))
             else:
                 kw = {}
@@ -335,6 +336,9 @@ def gen_scenarios(seed: int, n: int) -> list[dict[str, Any]]:
         rs = random.Random(f'daemons-sync-{seed}-{i}')       # (a stream of its own: the histories of earlier rounds stay as they were)
         for hid in hs:
             if rs.random() < 0.3: hs[hid]['sync'] = True
+        rz = random.Random(f'daemons-zero-{seed}-{i}')
+        for hid in hs:
+            if hs[hid]['kind'] == 'daemon' and not hs[hid]['backoff'] and rz.random() < 0.6: hs[hid]['bzero'] = True
         if rnd.random() < 0.4:
             hs['t1'] = {'kind': 'timer', 'interval': rnd.choice([0, 2, 3]), 'idle': rnd.choice([0, 0, 2])}
             if not hs['t1']['interval'] and not hs['t1']['idle']: hs['t1']['interval'] = 2
@@ -377,6 +381,12 @@ def crafted() -> list[dict[str, Any]]:
                                                 'backoff': b, 'timeout': t, 'sync': sync}},
                             'env': sorted([(5, 1, 'pause', life)] + list(extra), key=lambda x: (x[0], x[1])), 'init_on': True,
                             'delete_before_finalizer': False, 'end': 70})
+    # the same histories with an explicit zero where there was no backoff: the stage of the signal lasts no time at all
+    import copy
+    for sc in list(out):
+        if sc['handlers']['d1']['backoff'] == 0:
+            z = copy.deepcopy(sc); z['id'] += '-z'; z['handlers']['d1']['bzero'] = True
+            out.append(z)
     return out
 
 
